@@ -126,8 +126,9 @@ def spec_endpoint(kind, weights, coef, dt, u0, U, tau_last, copy_mode):
     return acc
 
 
-def spec_defect(kind, Q, coef, dt, u0, U, tau, mass=None):
-    """u0 + dt*Q*F(U) + tau - U per node: [M][n]"""
+def spec_defect(kind, Q, coef, dt, u0, U, tau, mass=None, coarse=False):
+    """u0 + dt*Q*F(U) + tau - U per node: [M][n]   (mass sweeper: M u0 + ... - M U on the finest level; on coarser levels the start value held by the
+    level is the restricted, already mass-weighted one, so it enters as it is)"""
     integ = spec_integrate(kind, Q, coef, dt, U)
     M = len(U)
     n = len(u0)
@@ -136,7 +137,7 @@ def spec_defect(kind, Q, coef, dt, u0, U, tau, mass=None):
         if mass is None:
             out.append([integ[m][i] + u0[i] - U[m][i] + tau[m][i] for i in range(n)])
         else:
-            out.append([integ[m][i] + zc(mass[i]) * (u0[i] - U[m][i]) + tau[m][i] for i in range(n)])
+            out.append([integ[m][i] + (u0[i] if coarse else zc(mass[i]) * u0[i]) - zc(mass[i]) * U[m][i] + tau[m][i] for i in range(n)])
     return out
 
 
